@@ -130,8 +130,12 @@ class SpecLoader:
         """
         from pyopenapi_gen.core.utils import NameSanitizer
 
-        # Extract enum values from metadata
-        enum_values = [value for _, value in enum_metadata.values]
+        # Extract enum values from metadata, each VALUE once (variants that share one enum schema for the
+        # discriminator property each contribute all of its values; an Enum class cannot repeat a value)
+        enum_values = []
+        for _, value in enum_metadata.values:
+            if value not in enum_values:
+                enum_values.append(value)
 
         # Infer type from first value
         first_value = enum_values[0] if enum_values else None
